@@ -482,6 +482,7 @@ package core
 //@   ensures[redirect@C13,C07] err == codec.MovedOrAsk ==> redirect(f) && f.Owner != nil && f.Peer != nil && f.Done == old(hd(c).Done)
 //@       && f.Peer.FragDoneNumber == old(hd(c).Peer.FragDoneNumber) && f.Peer.Done == old(hd(c).Peer.Done) && f.Peer.RspBody == old(hd(c).Peer.RspBody) && f.Peer.DelNum == old(hd(c).Peer.DelNum)
 //@   ensures[late.discard@C16,C13] (old(hd(c)) != nil && old(hd(c).Done) && old(hd(c).Owner) != nil && old(hd(c).Peer) != nil) ==> (err != nil && err != codec.MovedOrAsk)
+//@   ensures[late.notdelivered@C03,C01] (old(hd(c)) != nil && old(hd(c).Done) && old(hd(c).Owner) != nil && old(hd(c).Peer) != nil) ==> (err != nil && err != codec.MovedOrAsk)
 //@   ensures[late@C16] (err == codec.Continue && f == nil) ==> old(hd(c)) != nil && old(hd(c).Done)
 //@       && old(hd(c)).Peer.Done == old(hd(c).Peer.Done) && old(hd(c)).Peer.RspBody == old(hd(c).Peer.RspBody) && old(hd(c)).Peer.FragDoneNumber == old(hd(c).Peer.FragDoneNumber)
 //@   ensures[single@C02,C11] (err == nil && f.Owner != nil && f.Peer != nil && !split(f.Peer) && len(f.RspBody) <= EngineGlobal.sCodec.MsgMaxLength && old(hd(c).Error) == "")
